@@ -761,6 +761,15 @@ fn server_part(thorough: bool, evals: &AtomicU64, nontrivial: &AtomicU64) -> Vec
             cases.push((format!("frame {i} length prefix := {p}"), d.concat(), true));
         }
     }
+    // thorough: every cut point of EVERY mutated session above (drop / duplicate / swap / prefix mutation / banner)
+    if thorough {
+        let base: Vec<(String, Vec<u8>, bool)> = cases.iter().filter(|c| !c.0.starts_with("reference session cut")).cloned().collect();
+        for (name, input, may) in base {
+            for t in 0..input.len() {
+                cases.push((format!("{name}, cut after {t} bytes"), input[..t].to_vec(), may));
+            }
+        }
+    }
     // the decoder-level menu after a valid prologue
     let menu = cbor_menu();
     let step = if thorough { 1 } else { 3 };
